@@ -557,3 +557,20 @@ Example ex_faulty_twin :
     quiet e = [EvUp; EvHWM 4; EvWC] /\ quiet e' = [EvUp; EvHWM 4; EvWC] /\
     env_ok_run (init 4%N true true) ex_faulty.
 Proof. split; [reflexivity|]. vm_compute. eexists _, _, _. repeat split. Qed.
+
+(* ========================================================================================== *)
+(* errno is captured before the log statement (finding F-27, fixed in /repo).  Kept LAST in this file:  *)
+(* on a tree without the fix only this statement stops checking.                                  *)
+(* ========================================================================================== *)
+(* Acceptor::handleRead classifies by `== EMFILE`, sendInLoop by `!= EWOULDBLOCK` and `== EPIPE || == ECONNRESET`;
+   both paths log (LOG_SYSERR) and the logger's output function may change errno.  Regenerated (clang AST,
+   lib/errno_order.py): no log statement lies on the path between the failing system call and the point where the
+   tested value is captured (a single-assignment copy `int savedErrno = errno;` taken before the LOG_SYSERR, or a
+   direct read of errno before it).  A local copy of errno is canonicalised to `errno` in the guards above
+   (acceptor_emfile_test, sendInLoop_fatal_test), so the guards say WHICH value is compared and this theorem
+   says WHEN it is taken - which is what entitles the models to use one errno for both tests of a path.
+   Reverting the fix makes both facts false (and the clobbering-sink cases of bin/check C11 fail). *)
+Theorem C11_errno_captured_before_log :
+  Acceptor_handleRead_tests_saved_errno = true /\ sendInLoop_tests_saved_errno = true.
+Proof. exact (conj eq_refl eq_refl). Qed.
+Print Assumptions C11_errno_captured_before_log.
